@@ -57,14 +57,19 @@ def dicGet? {α : Type} (d : Dic α) (k : Bytes) : Option α :=
 
 def dicHas {α : Type} (d : Dic α) (k : Bytes) : Bool := (dicGet? d k).isSome
 
-/-- `set(key, value)`: replace, or insert at the sorted position -/
-def dicSet {α : Type} (d : Dic α) (k : Bytes) (v : α) : Dic α :=
+/-- `a[i].value = value` at the index `indexOf(key)` found -/
+def dicReplace {α : Type} (d : Dic α) (k : Bytes) (v : α) : Dic α :=
+  d.map fun kv => if kv.1 = k then (k, v) else kv
+
+/-- `a.insert(-i-1, KeyVal(key, value))`: before the first key greater than `k` -/
+def dicInsert {α : Type} (d : Dic α) (k : Bytes) (v : α) : Dic α :=
   match d with
   | [] => [(k, v)]
-  | (k', v') :: t =>
-    if k' = k then (k, v) :: t
-    else if bytesLt k k' then (k, v) :: (k', v') :: t
-    else (k', v') :: dicSet t k v
+  | (k', v') :: t => if bytesLt k k' then (k, v) :: (k', v') :: t else (k', v') :: dicInsert t k v
+
+/-- `set(key, value)`: `int i = indexOf(key); if (i >= 0) a[i].value = value; else a.insert(-i-1, …)` -/
+def dicSet {α : Type} (d : Dic α) (k : Bytes) (v : α) : Dic α :=
+  if dicHas d k then dicReplace d k v else dicInsert d k v
 
 /-- `remove(key)` -/
 def dicRemove {α : Type} (d : Dic α) (k : Bytes) : Dic α := d.filter (fun kv => kv.1 != k)
@@ -139,29 +144,49 @@ def dropGarbage (lines : List Bytes) : List Bytes :=
   | some l => if l.isEmpty then lines else lines.dropLast
   | none => lines
 
+/-- what a line is to the reader / to the first loop of the writer -/
+inductive Kind where
+  /-- empty, comment, `[` without `]`, … : kept, no effect -/
+  | skip
+  /-- (reader only) first significant byte is a key start but there is no `=` beyond index 0: removed from `_lines` -/
+  | garbage
+  /-- `[name]…` -/
+  | header (name : Bytes)
+  /-- `key=value`: the bytes before and after the first `=` -/
+  | kv (rawKey rawVal : Bytes)
+deriving Repr, DecidableEq
+
+/-- the branches of the reader loop body -/
+def classifyR (line : Bytes) : Kind :=
+  if line.isEmpty then .skip else
+  let i0 := leadSpaces line
+  if charAt line 0 = 91 then
+    -- `int end = line.indexOf(']', 1); String name = line.substring(1, end);`
+    match idxOf 93 (line.drop 1) with
+    | none => .skip
+    | some e => .header ((line.drop 1).take e)
+  else if isKeyStart (charAt line i0) then
+    -- `int i = line.indexOf('='); if (i < 1) {…; continue;}`
+    match idxOf 61 line with
+    | none => .garbage
+    | some 0 => .garbage
+    | some i => .kv (line.take i) (line.drop (i + 1))
+  else .skip
+
 /-- one iteration of the reader loop -/
 def readStep (sw : Bool) (st : RState) (line : Bytes) : RState :=
   let lines := if sw then st.lines ++ [line] else st.lines
-  if line.isEmpty then { st with lines := lines } else
-  let i0 := leadSpaces line
-  if charAt line 0 = 91 then
-    -- `int end = line.indexOf(']', 1)`
-    match idxOf 93 (line.drop 1) with
-    | none => { st with lines := lines }
-    | some e =>
-      let name := (line.drop 1).take e
-      { st with lines := lines, sections := touch st.sections name, cur := name,
-                currentTitle := if st.currentTitle = nosection then name else st.currentTitle }
-  else if isKeyStart (charAt line i0) then
-    match idxOf 61 line with
-    | none => { st with lines := dropGarbage lines }
-    | some 0 => { st with lines := dropGarbage lines }
-    | some i =>
-      let indent := if st.indent.isEmpty then line.takeWhile isSpace else st.indent
-      let key := slashToBackslash (trim (line.take i))
-      let value := trim (line.drop (i + 1))
-      { st with lines := lines, indent := indent, sections := secSet st.sections st.cur key value }
-  else { st with lines := lines }
+  match classifyR line with
+  | .skip => { st with lines := lines }
+  | .garbage => { st with lines := dropGarbage lines }
+  | .header name =>
+    { st with lines := lines, sections := touch st.sections name, cur := name,
+              currentTitle := if st.currentTitle = nosection then name else st.currentTitle }
+  | .kv rawKey rawVal =>
+    let indent := if st.indent.isEmpty then line.takeWhile isSpace else st.indent
+    let key := slashToBackslash (trim rawKey)
+    let value := trim rawVal
+    { st with lines := lines, indent := indent, sections := secSet st.sections st.cur key value }
 
 /-- `for(i=_lines.length()-1; i>0 && _lines[i][0]=='\0'; i--) _lines.resize(_lines.length()-1)` -/
 def stripTrail : List Bytes → List Bytes
@@ -233,29 +258,37 @@ structure W1 where
   sec : Bytes
   modified : Bool
 
-/-- one iteration of `foreach(String& line, _lines)`: the new state and the (possibly rewritten) line -/
-def writeStep (indent : Bytes) (w : W1) (line : Bytes) : W1 × Bytes :=
+/-- the branches of the body of `foreach(String& line, _lines)` in `write` (never `garbage`) -/
+def classifyW (line : Bytes) : Kind :=
   let i0 := leadSpaces line
   let c := charAt line i0
   if charAt line 0 = 91 then
+    -- `int end = line.indexOf(']'); String name = line.substring(1, end);`
     match idxOf 93 line with
-    | none => (w, line)
-    | some e =>
-      let name := (line.take e).drop 1
-      ({ w with sec := name, sections := touch w.sections name }, line)
+    | none => .skip
+    | some e => .header ((line.take e).drop 1)
   else if isKeyStart c then
+    -- `int i = line.indexOf('='); if (i < 0) continue;`
     match idxOf 61 line with
-    | none => (w, line)
-    | some i =>
-      let key := trim (line.take i)
-      let value0 := trim (line.drop (i + 1))
-      let sections := touchKey w.sections w.sec key
-      let value1 := (lookup sections w.sec key).getD []
-      ({ w with sections := sections,
-                newsecs := dicSet w.newsecs w.sec (dicRemove (secOf w.newsecs w.sec) key),
-                modified := w.modified || value0 != value1 },
-       indent ++ key ++ [61] ++ value1)
-  else (w, line)
+    | none => .skip
+    | some i => .kv (line.take i) (line.drop (i + 1))
+  else .skip
+
+/-- one iteration of `foreach(String& line, _lines)`: the new state and the (possibly rewritten) line -/
+def writeStep (indent : Bytes) (w : W1) (line : Bytes) : W1 × Bytes :=
+  match classifyW line with
+  | .skip => (w, line)
+  | .garbage => (w, line)
+  | .header name => ({ w with sec := name, sections := touch w.sections name }, line)
+  | .kv rawKey rawVal =>
+    let key := trim rawKey
+    let value0 := trim rawVal
+    let sections := touchKey w.sections w.sec key
+    let value1 := (lookup sections w.sec key).getD []
+    ({ w with sections := sections,
+              newsecs := dicSet w.newsecs w.sec (dicRemove (secOf w.newsecs w.sec) key),
+              modified := w.modified || value0 != value1 },
+     indent ++ key ++ [61] ++ value1)
 
 def pass1 (indent : Bytes) : W1 → List Bytes → W1 × List Bytes
   | w, [] => (w, [])
